@@ -243,8 +243,14 @@ pub fn panic_path(msg: &str) -> String {
 }
 
 fn exec_guarded<E: Engine>(e: &E, plan: &E::Plan, st: &mut RunStats) -> Vec<Violation> {
+    crate::simio::SINK_RUNAWAY.with(|c| c.set(false));
     match no_panic(|| e.exec(plan, st)) {
-        Ok(v) => v,
+        Ok(mut v) => {
+            if crate::simio::SINK_RUNAWAY.with(|c| c.replace(false)) {
+                v.push(Violation::new("T2", "runaway", "sink", format!("the writer made more than {} calls on its sink (a sink that accepts nothing, or fails, must end the operation)", crate::simio::WRITER_FUEL)));
+            }
+            v
+        }
         Err(msg) => {
             // a panic that escaped the engine's own guards: either the code under test panicked where the engine
             // did not expect it, or the harness itself is wrong. Both must be looked at.
